@@ -148,6 +148,8 @@ type Machine struct {
 	background    *CtxObj
 	race          raceState
 	lastIOLimit   *Term
+	stormUsed     int
+	stormBudget   int
 	lastIOWraps   []*readerWrap
 	tickIntervals []*Term
 	guards        map[*MapObj]*MutexObj
